@@ -21,6 +21,7 @@ DET_K = 4
 CASE_TIMEOUT = 900
 SELFTEST = {'quick': 12, 'thorough': 128}
 EPS = 2.220446049250313e-16
+REQUIRED_PROBES = ['kind_norms', 'kind_collector', 'kind_plot', 'kind_driver', 'replicated_layout', 'nonuniform_r_v', 'slots_wrapped', 'rows_across_restart', 'driver_rows_checked']
 RULE = ('case kinds (swarm-weighted): norms = random sign-changing (or constant one) 4-D field and complex '
         '3-D field on seeded non-uniform r and v grids, every process grid, the norm/energy classes in each '
         'of the three 4-D layouts and in the 2-D-distributed and the replicated 3-D layouts of the driver\'s '
